@@ -412,8 +412,8 @@ func (c *BatchForm) Step(it *Interp, st *StepInfo) {
 // ================================================================ C12
 
 type Refunds struct {
-	CrossRefund, SecondCancel, Race, ExpiryChecked, CancelOK, CancelBad int
-	cancelled                                                           map[string]bool
+	CrossRefund, SecondCancel, Race, ExpiryChecked, CancelOK, CancelBad, LegsLost int
+	cancelled                                                                     map[string]bool
 }
 
 func NewRefunds() *Refunds { return &Refunds{cancelled: map[string]bool{}} }
@@ -555,6 +555,46 @@ func (c *Refunds) Step(it *Interp, st *StepInfo) {
 		if st.Pre.Chains[ch].LastNonce != st.Post.Chains[ch].LastNonce {
 			quiet = false
 		}
+	}
+	// a refund leg (the transfer that carries a cross-chain refund back to its origin) must not be
+	// destroyed by the expiry sweep: it has no refund party, its value would be lost for the user
+	for _, ch := range ExtChains {
+		post := map[uint64]bool{}
+		for _, e := range st.Post.Chains[ch].Pool {
+			post[e.Id] = true
+		}
+		for _, b := range st.Post.Chains[ch].Batches {
+			for _, tx := range b.Transactions {
+				post[tx.Id] = true
+			}
+		}
+		executed := map[uint64]bool{}
+		for _, ev := range it.AppliedEvents(ch, st.Pre, st.Post) {
+			if be, ok := ev.(*mtypes.BatchExecutedEvent); ok {
+				executed[be.BatchNonce] = true
+			}
+		}
+		check := func(e *mtypes.SendToExternal, batch *mtypes.BatchTx) {
+			if e.TxHash != "#" || e.RefundChainId != "" || post[e.Id] || it.Failed() {
+				return
+			}
+			if batch != nil && executed[batch.BatchNonce] {
+				return
+			}
+			c.LegsLost++
+			it.Fail("C12", "refund-leg-destroyed", "%s: transfer %d carries a cross-chain refund of %s to %s; it expired in the pool and was removed without being sent, the value went to the module account", ch, e.Id, e.Token.Amount, e.ExternalRecipient)
+		}
+		for _, e := range st.Pre.Chains[ch].Pool {
+			check(e, nil)
+		}
+		for _, b := range st.Pre.Chains[ch].Batches {
+			for _, tx := range b.Transactions {
+				check(tx, b)
+			}
+		}
+	}
+	if it.Failed() {
+		return
 	}
 	delta := map[string]*big.Int{}
 	for _, ch := range ExtChains {
